@@ -893,6 +893,28 @@ func (w *world) runXpage(replay *Case) {
 			}
 		}
 	}
+	// writes that cover whole pages: three and four pages touched, boundaries #0..#2 crossed at once
+	for _, lw := range [][2]int{{-8, 4096 + 16}, {-1, 4096 + 2}, {0, 4096 + 1}, {-8, 8192 + 16}, {-4000, 4000 + 4096 + 8}, {0, 8192}, {-1, 8192 + 2}} {
+		for p := 0; p < npat; p++ {
+			my := idx
+			idx++
+			cs := Case{Part: "xpage", Boundary: 0, Off: lw[0], Len: lw[1], Pattern: p}
+			b := bounds[0]
+			if uintptr(int64(b)+int64(lw[0])) < body.entry+64 || uintptr(int64(b)+int64(lw[0]+lw[1]))+64 > codeEnd {
+				continue
+			}
+			if rep {
+				if *replay != cs {
+					continue
+				}
+			} else if c.Full() || c.TimedOut || !c.Mine(my) {
+				continue
+			}
+			w.xpage(cs, b)
+			c.Sample(cs)
+		}
+	}
+	ex["long_writes"] = "7 writes of 4 KiB..8 KiB+16 touching three or four pages"
 }
 
 // ---------------------------------------------------------------- entry point
